@@ -20,13 +20,15 @@ TRUSTED = ["Coq 8.16.1 kernel, vm_compute for the correspondence evaluation and 
            "coq/Agree.v agreement relation (relative tolerance 1e-9 w.r.t. the input magnitude, integers exact)",
            "NumPy, vg"]
 CASE_IMPORTS = [("PW.model", "M_shapes")]
+# theorems of props/C16.v that hold by the definition of the model (their content is carried by ties / correspondence)
+DEFINITIONAL = ["C16_flattened_is_take", "C16_tri_flattened_is_take", "C16_nonfloat_rejected", "C16_float_accepted"]
 ASSUMPTIONS = ["theorems are about exact real arithmetic; binary64 rounding is covered only by the tolerance of the "
                "correspondence check on sampled inputs",
                "cube and triangular_prism test `isinstance(x, float)`: while tracing, `isinstance` is shadowed in the module "
                "globals of polliwog.shapes._shapes so that the symbolic size/height counts as a float (run time only); the "
                "rejection of non-floats is tied by correspondence and oracle"]
 
-_IMPORTS = [("PW.model", "M_shapes"), ("PW.proofs", "P_vec"), ("PW.proofs", "P_mat"), ("PW.proofs", "P_shapes")]
+_IMPORTS = [("PW.model", "M_shapes"), ("PW.model", "M_shapes_spec"), ("PW.proofs", "P_vec"), ("PW.proofs", "P_mat"), ("PW.proofs", "P_shapes")]
 _SUNF = ("cbv [vecs_of tri_flat_list rectangular_prism_flat flatten rect_prism_faces rect_prism_quads quads_to_tris quad_to_tris "
          "tri_prism_faces flat_map app map tri_at nth_error rect_prism_vertices tri_prism_vertices tri_normal tri_cross "
          "signed_volume six_volume somes nsum fold_left tri_det vlist]; munf")
@@ -159,6 +161,48 @@ Qed.""" % {"faces": _faces_coq(tri_faces), "P1": P1, "P2": P2, "P3": P3, "sunf":
 Proof. intros. unfold {T}. %(sunf)s; unfold nfrac; rops. %(gen)s.
   list_eq ltac:(first [reflexivity | ring | (unfold Rdiv; ring)]). Qed.""" % {"P1": P1, "P2": P2, "P3": P3, "sunf": _SUNF, "gen": _GEN},
         imports=_IMPORTS, expect_structure={"shape": [8, 3, 3], "data": ["e"] * 72}))
+
+    # ---- the isinstance(x, float) rejection, pinned at trace time on concrete non-float arguments (NO isinstance shadowing
+    #      here): outcome 1 = ValueError, 2 = another exception, 0 = accepted; fail-closed comparison of the outcome ----
+    def outcome(fn):
+        def run(**kw):
+            try:
+                fn(**kw)
+            except ValueError:
+                return np.array([1])
+            except Exception:  # noqa
+                return np.array([2])
+            return np.array([0])
+        return run
+
+    rej = {"shape": [1], "dtype": "int64", "data": [1]}
+    ks.append(Kernel(
+        "cube_rejects_int", {"o": [1.0, 2.0, 3.0]},
+        outcome(lambda o: cube(o, 2, ret_unique_vertices_and_faces=True)),
+        """Lemma {T}_ok : forall {vars} : R, cube ROps %(O)s (PyInt 2) = Raise ValueError.
+Proof. reflexivity. Qed.""" % {"O": O}, imports=_IMPORTS, expect_structure=rej))
+    ks.append(Kernel(
+        "cube_rejects_float32", {"o": [1.0, 2.0, 3.0]},
+        outcome(lambda o: cube(o, np.float32(2.0))),
+        """Lemma {T}_ok : forall {vars} : R, cube ROps %(O)s PyOther = Raise ValueError.
+Proof. reflexivity. Qed.""" % {"O": O}, imports=_IMPORTS, expect_structure=rej))
+    ks.append(Kernel(
+        "tri_rejects_int", {"p": tri_pts},
+        outcome(lambda p: triangular_prism(p[0], p[1], p[2], 2, ret_unique_vertices_and_faces=True)),
+        """Lemma {T}_ok : forall {vars} : R, triangular_prism ROps %(P1)s %(P2)s %(P3)s (PyInt 2) = Raise ValueError.
+Proof. reflexivity. Qed.""" % {"P1": P1, "P2": P2, "P3": P3}, imports=_IMPORTS, expect_structure=rej))
+    ks.append(Kernel(
+        "tri_rejects_float32", {"p": tri_pts},
+        outcome(lambda p: triangular_prism(p[0], p[1], p[2], np.float32(2.0))),
+        """Lemma {T}_ok : forall {vars} : R, triangular_prism ROps %(P1)s %(P2)s %(P3)s PyOther = Raise ValueError.
+Proof. reflexivity. Qed.""" % {"P1": P1, "P2": P2, "P3": P3}, imports=_IMPORTS, expect_structure=rej))
+    # ... and a float IS accepted (outcome 0) without any shadowing
+    ks.append(Kernel(
+        "cube_accepts_float", {"o": [1.0, 2.0, 3.0]},
+        outcome(lambda o: cube(o, 2.0)),
+        """Lemma {T}_ok : forall {vars} s : R, exists r, cube ROps %(O)s (PyFloat s) = Ok r.
+Proof. intros. eexists. reflexivity. Qed.""" % {"O": O}, imports=_IMPORTS,
+        expect_structure={"shape": [1], "dtype": "int64", "data": [0]}))
     return ks
 
 
@@ -407,8 +451,9 @@ def oracle(c, o):
         a, b, cc = (verts[i] for i in f)
         if _dot(_cross(_sub(b, a), _sub(cc, a)), _sub(a, ctr)) <= 0:
             return "face %r does not face outward (its normal points towards the centroid)" % (f,)
-    M = max([Fr(1)] + [abs(x) for v in verts for x in v])
-    L = max(abs(x - y) for v in verts for x, y in zip(v, verts[0])) or Fr(1)
+    # magnitude of the coordinates, no absolute floor: a prism of size 1e-9 is judged as strictly as one of size 1
+    M = max([abs(x) for v in verts for x in v] + [abs(x) for v in verts for x in _sub(v, verts[0])])
+    L = max(abs(x - y) for v in verts for x, y in zip(v, verts[0]))
     slack = Fr(1, 10 ** 9) * M * L * L  # vertex coordinates carry rounding error relative to their own magnitude
     if kind in ("rect", "cube"):
         origin = _F(c["origin"])
